@@ -8,8 +8,15 @@ use serde_json::{json, Value};
 
 fn tagged(tag: &mut u32) -> dr::Instruction {
     *tag += 1;
-    // OpUndef %tag %tag : three words, unique
-    dr::Instruction::new(spirv::Op::Undef, Some(*tag), Some(*tag), vec![])
+    // mostly OpUndef %tag %tag (three words, unique); now and then an instruction without ids that occurs several times
+    // in a module: OpNop, one and the same OpLine (twice with another instruction in between), OpNoLine - a traversal or
+    // the assembler must not treat any opcode, or a repetition, specially
+    match *tag % 13 {
+        4 => dr::Instruction::new(spirv::Op::Nop, None, None, vec![]),
+        7 | 9 => dr::Instruction::new(spirv::Op::Line, None, None, vec![dr::Operand::IdRef(7), dr::Operand::LiteralBit32(3), dr::Operand::LiteralBit32(1)]),
+        11 => dr::Instruction::new(spirv::Op::NoLine, None, None, vec![]),
+        _ => dr::Instruction::new(spirv::Op::Undef, Some(*tag), Some(*tag), vec![]),
+    }
 }
 
 /// shape: sizes of the 10 vector sections, header?, memory_model?, functions: (def?, end?, nparams, blocks: (label?, ninsts))
